@@ -7,6 +7,7 @@ import Mathlib.Tactic.SplitIfs
 import Resvg.Lemmas.Basic
 import Resvg.Render.Layer
 import Resvg.Render.SizeBook
+import Resvg.Generated.RenderLimits
 
 namespace Resvg.Props.C02
 open Resvg.Render Resvg.Render.IntRect
@@ -225,5 +226,37 @@ theorem C02_tile_bounded_partial (W H : Nat) (wsx hsy : Rat) (t : Sz)
       apply Rat.floor_lt_iff.mpr; push_cast; linarith
     omega
   split_ifs at ht <;> (injection ht with ht; subst ht; simp only; omega)
+
+/-! ### feTurbulence: the octave loop -/
+
+/-- `convert_turbulence`: negative → 0, then the limit, then `round() as u32` -/
+def storedOctaves (n : Rat) : Nat :=
+  let c := if n < 0 then 0 else if n > Generated.maxOctaves then (Generated.maxOctaves : Rat) else n
+  ((c + 1 / 2).floor).toNat
+
+/-- **the per-pixel octave loop is bounded** (fix f88b122): whatever `numOctaves` says, the tree holds at
+    most `MAX_OCTAVES` of them, so a pixel costs at most `4 · 255` noise evaluations -/
+theorem C02_octaves_bounded (n : Rat) :
+    Generated.octavesClamped = true ∧ storedOctaves n ≤ Generated.maxOctaves ∧ Generated.maxOctaves = 255 := by
+  refine ⟨by decide, ?_, by decide⟩
+  have hm : Generated.maxOctaves = 255 := by decide
+  have key : ∀ c : Rat, c ≤ 255 → ((c + 1 / 2).floor).toNat ≤ 255 := by
+    intro c hc
+    have hf : (c + 1 / 2).floor ≤ 255 := by
+      rw [Lemmas.rat_floor_eq]
+      have : ⌊c + 1 / 2⌋ < 255 + 1 := by
+        apply Int.floor_lt.mpr
+        push_cast
+        linarith
+      omega
+    omega
+  unfold storedOctaves
+  simp only [hm]
+  split_ifs with h1 h2
+  · exact key 0 (by norm_num)
+  · exact key _ (by norm_num)
+  · exact key n (by push_neg at h2; exact_mod_cast h2)
+
+example : storedOctaves 2147483648 = 255 ∧ storedOctaves (-1) = 0 ∧ storedOctaves 5 = 5 := by decide +kernel
 
 end Resvg.Props.C02
